@@ -39,15 +39,17 @@ class CMADeme(AbstractDeme):
 
     def run_metaepoch(self, tree) -> None:
         epoch_counter = 0
+        # CMA-ES minimises the values it is told: negate them for maximisation problems.
+        sign = -1.0 if self._problem.maximize else 1.0
         genomes = [ind.genome for ind in self.current_population]
-        values = [ind.fitness for ind in self.current_population]
+        values = [sign * ind.fitness for ind in self.current_population]
         metaepoch_generations = []
         while epoch_counter < self.generations:
             self._cma_es.tell(genomes, values)
             offspring = [Individual(solution, problem=self._problem) for solution in self._cma_es.ask()]
             Individual.evaluate_population(offspring)
             genomes = [ind.genome for ind in offspring]
-            values = [ind.fitness for ind in offspring]
+            values = [sign * ind.fitness for ind in offspring]
             epoch_counter += 1
             metaepoch_generations.append(offspring)
             if (gsc_value := tree._gsc(tree)) or self._cma_es.stop():
